@@ -1196,4 +1196,155 @@ example : keyAuthMW true vTok ⟨[], .absent, false⟩ [] = some ⟨true, 200, 0
     keyAuthMW false vTok ⟨[], .absent, false⟩ [] = none := by decide
 example : createExtractors "header:Authorization".toList [] = some [⟨.header, authorizationLit, []⟩] := by decide
 
+
+/-! ## round 5: several instances on the path of one request (`authStack`) -/
+
+/-- **C13_stack_every_instance** — behind any stack every instance must pass the request on its own:
+    the handler ran ⇒ each instance, evaluated on the request as it was sent, does not panic and
+    calls `next`. -/
+theorem C13_stack_every_instance (dec : Str → Option Str) : ∀ (ls : List ALayer) (o : SObs),
+    authStack dec ls = some o → o.ran = true → ∀ l ∈ ls, ∃ ol, l.run dec = some ol ∧ ol.ran = true
+  | [], _, _, _ => by simp
+  | l :: rest, o, h, hr => by
+    unfold authStack at h
+    cases hl : l.run dec with
+    | none => rw [hl] at h; cases h
+    | some ol =>
+      rw [hl] at h
+      simp only [] at h
+      cases hran : ol.ran with
+      | false =>
+        simp only [hran, Bool.false_eq_true, if_false, Option.some.injEq] at h
+        rw [← h] at hr; cases hr
+      | true =>
+        simp only [hran, if_true] at h
+        cases hrest : authStack dec rest with
+        | none => rw [hrest] at h; cases h
+        | some r =>
+          rw [hrest] at h
+          simp only [Option.some.injEq] at h
+          have hrr : r.ran = true := by rw [← h] at hr; exact hr
+          have ih := C13_stack_every_instance dec rest r hrest hrr
+          intro l' hl'
+          rcases List.mem_cons.mp hl' with rfl | hm
+          · exact ⟨ol, hl, hran⟩
+          · exact ih l' hm
+
+/-- **C13_stack_complete** — and conversely: when every instance on its own passes the request as it
+    was sent (e.g. each validator accepts the well-formed credentials of the request), the handler
+    runs — no instance can take away what a later one is going to look at.  (The statement a
+    middleware that consumes the `Authorization` header after its own success breaks.) -/
+theorem C13_stack_complete (dec : Str → Option Str) : ∀ (ls : List ALayer),
+    (∀ l ∈ ls, ∃ ol, l.run dec = some ol ∧ ol.ran = true) →
+    ∃ o, authStack dec ls = some o ∧ o.ran = true ∧ o.status = 200 ∧ o.layers.length = ls.length
+  | [], _ => ⟨_, rfl, rfl, rfl, rfl⟩
+  | l :: rest, h => by
+    obtain ⟨ol, hl, hran⟩ := h l (by simp)
+    obtain ⟨r, hr, hrr, hst, hlen⟩ := C13_stack_complete dec rest (fun l' hl' => h l' (by simp [hl']))
+    refine ⟨{ r with layers := (ol.ehClass, ol.calls) :: r.layers }, ?_, hrr, hst, by simp [hlen]⟩
+    unfold authStack
+    simp [hl, hran, hr]
+
+/-- the first instance that does not pass the request on answers it: its status and challenge are the
+    response, later instances are not consulted (their validators are not called) -/
+theorem C13_stack_stops_at_first (dec : Str → Option Str) (pre : List ALayer) (l : ALayer) (post : List ALayer)
+    (hpre : ∀ x ∈ pre, ∃ ox, x.run dec = some ox ∧ ox.ran = true)
+    (ol : LObs) (hl : l.run dec = some ol) (hran : ol.ran = false) :
+    ∃ o, authStack dec (pre ++ l :: post) = some o ∧ o.ran = false ∧ o.status = ol.status ∧ o.www = ol.www ∧
+      o.layers.drop (pre.length + 1) = post.map (fun _ => (0, [])) := by
+  induction pre with
+  | nil =>
+    refine ⟨⟨false, ol.status, ol.www, (ol.ehClass, ol.calls) :: post.map fun _ => (0, [])⟩, ?_, rfl, rfl, rfl, by simp⟩
+    simp [authStack, hl, hran]
+  | cons x pre ih =>
+    obtain ⟨ox, hx, hxr⟩ := hpre x (by simp)
+    obtain ⟨o, ho, h1, h2, h3, h4⟩ := ih (fun y hy => hpre y (by simp [hy]))
+    refine ⟨{ o with layers := (ox.ehClass, ox.calls) :: o.layers }, ?_, h1, h2, h3, ?_⟩
+    · simp only [List.cons_append]
+      unfold authStack
+      simp [hx, hxr, ho]
+    · simpa using h4
+
+/-- **C13_stack_basic_layer** — the handler ran behind a stack ⇒ for every BasicAuth instance in it:
+    its Skipper stood it aside, or ITS validator said yes to the literally decoded credentials of the
+    request's first Authorization value. -/
+theorem C13_stack_basic_layer (dec : Str → Option Str) (ls : List ALayer) (o : SObs)
+    (h : authStack dec ls = some o) (hr : o.ran = true)
+    (skip : Bool) (realm quoted : Str) (V : Str → Str → Outcome) (hdrs : List Str)
+    (hl : ALayer.basic skip realm quoted V hdrs ∈ ls) :
+    skip = true ∨ ∃ auth u p, hdrs.head? = some auth ∧ Guard auth ∧
+      dec (auth.drop 6) = some (u ++ ':' :: p) ∧ ':' ∉ u ∧ V u p = .yes := by
+  obtain ⟨ol, hrun, hran⟩ := C13_stack_every_instance dec ls o h hr _ hl
+  simp only [ALayer.run] at hrun
+  cases hb : basicAuthMW skip V dec hdrs with
+  | none => rw [hb] at hrun; cases hrun
+  | some bo =>
+    rw [hb] at hrun
+    simp only [Option.some.injEq] at hrun
+    have hbr : bo.ran = true := by rw [← hrun] at hran; exact hran
+    rcases C13_basic_mw_sound skip V dec hdrs bo hb hbr with hs | ⟨auth, u, p, h1, h2, h3, h4, h5, _⟩
+    · exact Or.inl hs
+    · exact Or.inr ⟨auth, u, p, h1, h2, h3, h4, h5⟩
+
+/-- **C13_stack_key_layer** — and for every KeyAuth instance: skipped, or ITS validator approved a
+    key literally present at one of ITS lookup locations, or its documented opt-in applies. -/
+theorem C13_stack_key_layer (dec : Str → Option Str) (ls : List ALayer) (o : SObs)
+    (h : authStack dec ls = some o) (hr : o.ran = true)
+    (skip : Bool) (V : Str → Outcome) (cfg : KCfg) (data : List (List (Str × Str)))
+    (hl : ALayer.key skip V cfg data ∈ ls) :
+    skip = true ∨ (∃ k, V k = .yes ∧ Present cfg data k) ∨ (cfg.cont = true ∧ cfg.eh = .retNil) := by
+  obtain ⟨ol, hrun, hran⟩ := C13_stack_every_instance dec ls o h hr _ hl
+  simp only [ALayer.run] at hrun
+  cases hk : keyAuthMW skip V cfg data with
+  | none => rw [hk] at hrun; cases hrun
+  | some ko =>
+    rw [hk] at hrun
+    simp only [Option.some.injEq] at hrun
+    have hkr : ko.ran = true := by rw [← hrun] at hran; exact hran
+    rcases C13_key_mw_sound skip V cfg data ko hk hkr with hs | ⟨k, _, hv, hp⟩ | ⟨hc, he, _⟩
+    · exact Or.inl hs
+    · exact Or.inr (Or.inl ⟨k, hv, hp⟩)
+    · exact Or.inr (Or.inr ⟨hc, he⟩)
+
+/-- **C13_stack_basic_accepting** — any number of BasicAuth instances (any realms, any casing of the
+    scheme is the request's) whose validators all accept the request's well-formed credentials let
+    the request through to the handler, each validator asked exactly once about exactly `(u, p)`. -/
+theorem C13_stack_basic_accepting (dec : Str → Option Str) (sch enc u p : Str) (sep : Char) (rest : List Str)
+    (hsch : sch.length = 5) (hfold : eqFold sch basicLit = true) (henc : enc ≠ [])
+    (hdec : dec enc = some (u ++ ':' :: p)) (hu : ':' ∉ u)
+    (ls : List ALayer)
+    (hall : ∀ l ∈ ls, ∃ realm quoted V, l = .basic false realm quoted V ((sch ++ sep :: enc) :: rest) ∧ V u p = .yes) :
+    ∃ o, authStack dec ls = some o ∧ o.ran = true ∧ o.status = 200 ∧ ∀ x ∈ o.layers, x = (0, [(u, p)]) := by
+  induction ls with
+  | nil => exact ⟨_, rfl, rfl, rfl, by simp⟩
+  | cons l ls ih =>
+    obtain ⟨realm, quoted, V, rfl, hV⟩ := hall l (by simp)
+    obtain ⟨r, hr, hrr, hst, hlay⟩ := ih (fun l' hl' => hall l' (by simp [hl']))
+    have hb := C13_basic_complete V dec sch enc u p sep rest hsch hfold henc hdec hu hV
+    refine ⟨{ r with layers := (0, [(u, p)]) :: r.layers }, ?_, hrr, hst, ?_⟩
+    · unfold authStack
+      simp [ALayer.run, basicAuthMW, hb, hr]
+    · intro x hx
+      rcases List.mem_cons.mp hx with rfl | hm
+      · rfl
+      · exact hlay x hm
+
+-- non-vacuity: BasicAuth(outer) on the root, BasicAuth(inner) on the group, KeyAuth on the route reading the
+-- same header; every instance is asked about the request as sent
+def vInner : Str → Str → Outcome := fun u p => if u = "joe".toList ∧ p = "pw:x".toList then .yes else .err (.http 403)
+def vB64 : Str → Outcome := fun k => if k = "am9lOnB3Ong=".toList then .yes else .no
+def keyOnBasic : KCfg := ⟨[⟨.header, authorizationLit, "Basic ".toList⟩], .absent, false⟩
+example : authStack b64decode
+    [.basic false [] [] vJoe ["bAsIc am9lOnB3Ong=".toList], .basic false "inner".toList "\"inner\"".toList vInner ["bAsIc am9lOnB3Ong=".toList],
+     .key false vB64 keyOnBasic [[("Authorization".toList, "bAsIc am9lOnB3Ong=".toList)]]]
+    = some ⟨true, 200, [], [(0, [("joe".toList, "pw:x".toList)]), (0, [("joe".toList, "pw:x".toList)]), (0, [("am9lOnB3Ong=".toList, [])])]⟩ := by
+  decide
+-- the inner instance refuses what the outer one accepts: its challenge and status are the answer, the third is not asked
+example : authStack b64decode
+    [.basic false [] [] vJoe ["Basic Zm9vOmJhcg==".toList, "Basic am9lOnB3Ong=".toList].reverse,
+     .basic false "inner".toList "\"inner\"".toList (fun _ _ => .no) ["Basic am9lOnB3Ong=".toList],
+     .key false vB64 keyOnBasic [[("Authorization".toList, "Basic am9lOnB3Ong=".toList)]]]
+    = some ⟨false, 401, "basic realm=\"inner\"".toList, [(0, [("joe".toList, "pw:x".toList)]), (0, [("joe".toList, "pw:x".toList)]), (0, [])]⟩ := by
+  decide
+
 end C13
